@@ -20,6 +20,11 @@ import (
 // lenient inside a parenthesised list). A hand-written file with the same bytes is mangled
 // identically by gofmt.
 func GofmtBreaks(raw []byte) bool {
+	// the raw rendering itself is a complete, parseable file ...
+	if _, err := parser.ParseFile(token.NewFileSet(), "", raw, 0); err != nil {
+		return false
+	}
+	// ... and gofmt turns it into something that is not
 	out, err := format.Source(raw)
 	if err != nil {
 		return false
